@@ -4,6 +4,7 @@ import (
 	"fmt"
 	"os"
 	"os/exec"
+	"strings"
 	"time"
 
 	"verif/sim/kernel"
@@ -24,6 +25,26 @@ func budgetSeconds(tier string, quick, thorough int) time.Duration {
 
 var simrunAsm = Variant{Name: "asm", Pkg: "./cmd/simrun", Tags: "verif"}
 var simrunPurego = Variant{Name: "purego", Pkg: "./cmd/simrun", Tags: "verif,purego"}
+
+// simrunAsmV3 is the assembly build for GOAMD64=v3: another build
+// configuration of "without the purego tag" (a tree may select different
+// assembly by microarchitecture level).
+var simrunAsmV3 = Variant{Name: "asm-v3", Pkg: "./cmd/simrun", Tags: "verif", Env: []string{"GOAMD64=v3"}}
+
+// buildV3 builds the GOAMD64=v3 variant and checks that this CPU runs it.
+func (e *Env) buildV3() (string, string) {
+	bin, err := e.Build(simrunAsmV3)
+	if err != nil {
+		Logf("the GOAMD64=v3 build failed: skipped\n%v", err)
+		return "", "skipped: does not build with GOAMD64=v3"
+	}
+	cmd := exec.Command(bin, "-selftest")
+	if out, err := cmd.CombinedOutput(); err != nil {
+		Logf("this CPU does not run GOAMD64=v3 binaries (%v: %s): skipped", err, strings.TrimSpace(string(out)))
+		return "", "skipped: this CPU does not run GOAMD64=v3 binaries"
+	}
+	return bin, "ran"
+}
 
 // simStall is the stall world: a test binary built with the newer toolchain
 // of the sandbox, because it runs the signers inside testing/synctest bubbles
